@@ -602,3 +602,115 @@ def scan_buffered_sinks(crate):
             else:
                 out.append((b["path"], site, "ok", f"{len(required)} flush point(s) on every path to a successful return"))
     return out
+
+
+LOG_LEVEL_READS = ("log::max_level", "log::Log::enabled", "log::__private_api::enabled", "tracing::level_enabled", "log::logger")
+_LOG_PLUMBING = ("log::", "core::fmt::", "std::fmt::", "fmt::rt::", "fmt::Arguments", "panic::Location", "ops::Deref::deref", "hint::must_use")
+
+
+def scan_log_guarded_effects(crate, in_scope=lambda p: True):
+    """What the logging macros evaluate, they evaluate only when the level is enabled (`if lvl <= max_level() { log(format_args!(..)) }`):
+    whether the arguments are computed depends on how the process configured its logger — `RUST_LOG`, a library caller without one.
+    Reading a value there is harmless; *changing* one is a computation whose result the rest of the run may see. For every read of
+    the logging level: the blocks control-dependent on 'enabled' (dominated by the arm of the switch that leads to the logging call)
+    hold no call that is handed a `&mut` to something and no store through a reference or into a captured / parameter place.
+    -> [(fn, site, what)] effects, and the number of level reads looked at"""
+    out = []
+    n = 0
+    for b in bodies(crate):
+        if not in_scope(b["path"]):
+            continue
+        B = M.Body(b)
+        for bb, t in B.calls():
+            d = M.Body.callee_decl(t) or ""
+            if not d.endswith(LOG_LEVEL_READS) or t.get("target") is None:
+                continue
+            # the switch the level test ends in
+            cur, sw = t["target"], None
+            for _ in range(6):
+                tt = B.blocks[cur]["term"]
+                if tt.get("k") == "switch":
+                    sw = cur
+                    break
+                nxt = tt.get("target")
+                if nxt is None:
+                    break
+                cur = nxt
+            if sw is None:
+                continue
+            n += 1
+            st = B.blocks[sw]["term"]
+            arms = [x[1] for x in st.get("targets") or []] + ([st["otherwise"]] if st.get("otherwise") is not None else [])
+            for arm in arms:
+                region = {x for x in B.reach if B.dominates(arm, x)}
+                if not any((M.Body.callee_decl(B.blocks[x]["term"]) or "").endswith(("log::__private_api::log", "log::Log::log")) or "__private_api::log" in (M.Body.callee_decl(B.blocks[x]["term"]) or "")
+                           for x in region if B.blocks[x]["term"].get("k") == "call"):
+                    continue
+                for x in sorted(region):
+                    blk = B.blocks[x]
+                    tx = blk["term"]
+                    if tx.get("k") == "call":
+                        dx = M.Body.callee_decl(tx) or ""
+                        if any(s_ in dx for s_ in _LOG_PLUMBING):
+                            continue
+                        muts = [B.local_ty(a["p"]["l"]) for a in tx.get("args", []) if a.get("k") in ("copy", "move") and not a["p"].get("proj")
+                                and str(B.local_ty(a["p"]["l"])).startswith("&mut ")]
+                        if muts:
+                            out.append((b["path"], tx.get("sp"), f"call of {dx.rsplit('::', 2)[-2] + '::' + dx.rsplit('::', 1)[-1] if '::' in dx else dx} with {muts[0]}"))
+                    for s_ in blk["stmts"]:
+                        if s_["k"] == "assign" and any(p_ == "deref" for p_ in (s_["p"].get("proj") or [])):
+                            out.append((b["path"], s_.get("sp"), "store through a reference"))
+    return out, n
+
+
+FORMAT_COUNT_MAX = 65535
+
+
+def scan_runtime_format_counts(crate, in_scope=lambda p: True):
+    """A width or precision that is computed at run time (`{:<width$}`, `{:.*}`) is handed to the formatting machinery as a `usize`;
+    `core::fmt` keeps it in 16 bits and **panics** ("Formatting argument out of range") when it is above 65535. -> [(fn, site,
+    verdict)] with verdict 'bounded: ..' when every origin of the count is a constant that fits, or the smaller of something and
+    such a constant (`min`, `clamp`), else 'unbounded: <origin>'."""
+    out = []
+    for b in bodies(crate):
+        if not in_scope(b["path"]):
+            continue
+        B = M.Body(b)
+        for bb, t in B.calls():
+            d = M.Body.callee_decl(t) or ""
+            if not d.endswith("Argument::<'_>::from_usize") and not d.endswith("Argument::from_usize"):
+                continue
+
+            def bounded(op, depth=0, B=B, path=b["path"]):
+                os_ = M.trace(B, op)
+                if not os_ or depth > 6:
+                    return False, "unknown"
+                for o in os_:
+                    if o.kind == "const":
+                        bits = o.const.get("bits")
+                        if not (isinstance(bits, int) and bits <= FORMAT_COUNT_MAX):
+                            return False, f"constant {o.const.get('text')}"
+                        continue
+                    if o.kind == "call":
+                        dd = M.Body.callee_decl(o.term) or ""
+                        if dd.endswith(("cmp::Ord::min", "cmp::min", "usize::min")) and len(o.term["args"]) == 2:
+                            if any(bounded(a, depth + 1, B, path)[0] for a in o.term["args"]):
+                                continue
+                        if dd.endswith(("cmp::Ord::clamp",)) and len(o.term["args"]) == 3 and bounded(o.term["args"][2], depth + 1, B, path)[0]:
+                            continue
+                        return False, dd.rsplit("::", 1)[-1]
+                    if o.kind == "upvar" and "::{closure#" in path:
+                        # what the closure captured: judged where the closure is made
+                        ppath = path.rsplit("::{closure#", 1)[0]
+                        pb = crate.body(ppath)
+                        if pb is not None and pb.get("mir"):
+                            PB = M.Body(pb)
+                            caps = [st["rv"]["ops"][o.index] for i_ in sorted(PB.reach) for st in PB.blocks[i_]["stmts"]
+                                    if st["k"] == "assign" and st["rv"]["k"] == "aggregate" and st["rv"].get("closure") == path and o.index < len(st["rv"]["ops"])]
+                            if caps and all(bounded(c_, depth + 1, PB, ppath)[0] for c_ in caps):
+                                continue
+                    return False, o.kind + (" " + str(getattr(o, "name", "")) if o.kind in ("arg", "upvar") else "")
+                return True, "a constant that fits, or cut at one"
+            ok, why = bounded(t["args"][0])
+            out.append((b["path"], t.get("sp"), ("bounded: " if ok else "unbounded: ") + why))
+    return out
